@@ -233,9 +233,20 @@ func readAllOpt(stream []byte, limit uint32, reuse bool) (v *vstat.Violation, cl
 		case fr.THeaders, fr.TContinuation, fr.TPushPromise:
 			if want.Flags&4 == 0 {
 				if typ == fr.TPushPromise {
-					// not tracked by x/net: a following CONTINUATION is handled above
-					expectCont, ppChain = 0, false
+					// x/net does not read PUSH_PROMISE chains (a CONTINUATION behind one is refused wherever it goes); what
+					// the RFC leaves no room for is a CONTINUATION on ANOTHER stream - the promised one included - being
+					// accepted as the block's continuation. Only that next frame is judged, then the check stops.
 					classes = append(classes, "push-promise-without-end-headers")
+					nx := rest[n:]
+					if len(nx) >= 9 && nx[3] == fr.TContinuation && len(nx) >= 9+(int(nx[0])<<16|int(nx[1])<<8|int(nx[2])) {
+						cs := (uint32(nx[5])<<24 | uint32(nx[6])<<16 | uint32(nx[7])<<8 | uint32(nx[8])) & 0x7fffffff
+						if cs != stream && uint32(int(nx[0])<<16|int(nx[1])<<8|int(nx[2])) <= limit {
+							classes = append(classes, "continuation-on-another-stream-behind-push-promise")
+							if _, err2 := f.ReadFrame(); err2 == nil {
+								return vstat.Violf("read|malformed-accepted:CONTINUATION", "CONTINUATION on stream %d accepted behind a PUSH_PROMISE without END_HEADERS on stream %d (frame bytes %x)", cs, stream, nx[:min(len(nx), 20)]), classes
+							}
+						}
+					}
 					return nil, classes
 				}
 				expectCont = stream
@@ -317,6 +328,14 @@ func genReadScript(t *rapid.T) ReadScript {
 		switch rapid.IntRange(0, 7).Draw(t, "fk") {
 		case 0:
 			s.Stream = append(s.Stream, rapid.SliceOfN(rapid.Byte(), 0, 30).Draw(t, "raw")...)
+		case 3: // a PUSH_PROMISE that does not end its header block, then a CONTINUATION on its own, the promised or another stream
+			if rapid.Bool().Draw(t, "ppchain") {
+				sid, pid := rapid.SampledFrom([]uint32{1, 3}).Draw(t, "ppsid"), rapid.SampledFrom([]uint32{2, 4}).Draw(t, "pppid")
+				s.Stream = append(s.Stream, fr.PushPromise(sid, pid, []byte{0x82}, false, 0)...)
+				s.Stream = append(s.Stream, fr.Continuation(rapid.SampledFrom([]uint32{sid, pid, pid, 7}).Draw(t, "ppcsid"), rapid.Bool().Draw(t, "ppeh"), []byte{0x84})...)
+			} else {
+				s.Stream = append(s.Stream, framegen.Frame(t)...)
+			}
 		case 1: // header chain
 			sid := rapid.SampledFrom([]uint32{1, 3, 5}).Draw(t, "csid")
 			s.Stream = append(s.Stream, fr.Headers(sid, []byte{0x82}, rapid.Bool().Draw(t, "es"), false, 0, false, 0, false, 0)...)
